@@ -1876,7 +1876,8 @@ def _read_reader_macro(ctx: ReaderContext) -> LispReaderForm:
         return _with_start_loc(form, line, col)
     elif begin_ns_name_chars.match(char):
         s = _read_sym(ctx, is_reader_macro_sym=True)
-        assert isinstance(s, sym.Symbol)
+        if not isinstance(s, sym.Symbol):
+            raise ctx.syntax_error("Reader tag must be a symbol, not nil, true or false")
         if s.ns is None:
             if s.name == "b":
                 return _read_byte_str(ctx)
